@@ -944,6 +944,18 @@ def i_XCHG(i, fmap):
     fmap[op1] = tmp
 
 
+def _shift_flags(fmap, count, res):
+    "SF/ZF/PF of a shift result; a count that turns out to be 0 leaves them unchanged"
+    s, z, p = res.bit(-1), res == 0, parity8(res[0:8])
+    if not count._is_cst:
+        s = tst(count == 0, fmap(sf), s)
+        z = tst(count == 0, fmap(zf), z)
+        p = tst(count == 0, fmap(pf), p)
+    fmap[sf] = s
+    fmap[zf] = z
+    fmap[pf] = p
+
+
 def i_SHR(i, fmap):
     op1 = i.operands[0]
     count = fmap(i.operands[1] & 0x1F)
@@ -965,9 +977,7 @@ def i_SHR(i, fmap):
         fmap[of] = top(1)
     res = a >> count
     fmap[op1] = res
-    fmap[sf] = res.bit(-1)
-    fmap[zf] = res == 0
-    fmap[pf] = parity8(res[0:8])
+    _shift_flags(fmap, count, res)
 
 
 def i_SAR(i, fmap):
@@ -991,9 +1001,7 @@ def i_SAR(i, fmap):
         fmap[of] = top(1)
     res = a // count  # (// is used as arithmetic shift in cas.py)
     fmap[op1] = res
-    fmap[sf] = res.bit(-1)
-    fmap[zf] = res == 0
-    fmap[pf] = parity8(res[0:8])
+    _shift_flags(fmap, count, res)
 
 
 def i_SHL(i, fmap):
@@ -1017,9 +1025,7 @@ def i_SHL(i, fmap):
         fmap[cf] = top(1)
         fmap[of] = top(1)
     fmap[op1] = x
-    fmap[sf] = x.bit(-1)
-    fmap[zf] = x == 0
-    fmap[pf] = parity8(x[0:8])
+    _shift_flags(fmap, count, x)
 
 
 i_SAL = i_SHL
